@@ -735,24 +735,36 @@ Section VertexWrapper.
   Variable find : list TR -> res (option V * list TR).
   Variable Pc : list SP -> Prop.     (* what clustering guarantees of a cluster and the fit needs *)
 
+  (* the hypotheses on the fit and on find_vertices are needed only of the clusters / the track list that THIS avalanche
+     list leads to *)
+  Theorem vertex_res_total_rel avs :
+    (forall a, In a avs -> sp_of a <> Panic) ->
+    (forall pts, exists cl rem, cluster pts = Ok (cl, rem) /\ forall c, In c cl -> Pc c) ->
+    (forall cl c, vertex_clusters sp_of cluster avs = Ok cl -> In c cl -> Pc c -> fit c <> Panic) ->
+    (forall trs, vertex_tracks sp_of cluster fit avs = Ok trs -> exists r, find trs = Ok r) ->
+    exists v, vertex_res sp_of cluster fit find (Ok avs) = Ok v.
+  Proof.
+    intros HS HC HF HV. unfold vertex_res, vertex_tracks, vertex_clusters in *. cbn [bind].
+    destruct (ok_filter_total sp_of avs HS) as (pts & E1 & _). rewrite E1 in *. cbn [bind] in *.
+    destruct (HC pts) as (cl & rem & E2 & Hcl). rewrite E2 in *. cbn [bind] in *.
+    destruct (ok_filter_total fit cl) as (trs & E3 & _). { intros c Hc. apply (HF cl c eq_refl Hc), Hcl, Hc. }
+    rewrite E3 in *. cbn [bind]. destruct (HV trs eq_refl) as ([v rest] & ->). cbn [bind]. eauto.
+  Qed.
+
   Theorem vertex_res_total avs :
     (forall a, In a avs -> sp_of a <> Panic) ->
     (forall pts, exists cl rem, cluster pts = Ok (cl, rem) /\ forall c, In c cl -> Pc c) ->
     (forall c, Pc c -> fit c <> Panic) ->
     (forall trs, exists r, find trs = Ok r) ->
     exists v, vertex_res sp_of cluster fit find (Ok avs) = Ok v.
-  Proof.
-    intros HS HC HF HV. unfold vertex_res. cbn [bind].
-    destruct (ok_filter_total sp_of avs HS) as (pts & -> & _). cbn [bind].
-    destruct (HC pts) as (cl & rem & -> & Hcl). cbn [bind].
-    destruct (ok_filter_total fit cl) as (trs & -> & _). { intros c Hc. apply HF, Hcl, Hc. }
-    cbn [bind]. destruct (HV trs) as ([v rest] & ->). cbn [bind]. eauto.
-  Qed.
+  Proof. intros HS HC HF HV. apply vertex_res_total_rel; auto. Qed.
 End VertexWrapper.
 
 (* (6) conditional: the stages are the models of C15 (cluster_spacepoints_pub over equality classes of points) and
-   C14 (fit_cluster_to_helix, find_vertices); every numeric hypothesis of C14 is inherited, quantified over all
-   clusters / track lists *)
+   C14 (fit_cluster_to_helix, find_vertices) with the optimiser as an interaction tree (Fit.strategy: ftree for the track
+   fit, vtree for the vertex fit).  The numeric hypotheses are those of C14_fit_skeleton_total / C14_vertex_skeleton_total
+   in their evaluated-vector forms, and they are asked only of the clusters (vertex_clusters) and of the track list
+   (vertex_tracks) this avalanche list leads to. *)
 Lemma vertex_total_partial_lemma :
   forall (A F vpoint : Type) (sp_of : A -> res Cluster.point)
     (bins : Cluster.point -> list Cluster.bin) (near : Cluster.point -> Cluster.point -> bool)
@@ -761,50 +773,75 @@ Lemma vertex_total_partial_lemma :
     (fhalf fabs : F -> F) (fzero : F)
     (guess6 : list Cluster.point -> Cluster.point -> Cluster.point -> Cluster.point -> list F) (bump : F -> F)
     (point_val closest : list F -> Cluster.point -> F)
-    (nm : (list F -> res F) -> list (list F) -> res (option (list F))) (sd_tol_ok : bool)
+    (ftree vtree : list (list F) -> Fit.strategy F) (good : F -> Prop) (sd_tol_ok : bool)
     (teq : Fit.track F -> Fit.track F -> bool) (t_zb t_rad : Fit.track F -> F) (is_primary : Fit.track F -> bool)
     (close_z : F -> F -> bool) (sumF : list F -> F) (mean_z : list (Fit.track F) -> F)
     (sortP : list (Fit.track F) -> list (Fit.track F)) (vpoint_of : list F -> vpoint)
     (vcost_val : list (Fit.track F) -> list F -> Fit.track F -> F) (vguess : F -> list F)
     (tclosest : Fit.track F -> vpoint -> F),
+  let cluster := Cluster.cluster_spacepoints_pub bins near in
+  let cost := Fit.cost F Cluster.point fnan fadd fzero point_val in
+  let fit_simplex := Fit.fit_simplex F Cluster.point p_r p_x p_y flt feq fcmp fadd fsub fmul fhalf fabs guess6 bump in
+  let fit := Fit.fit_cluster_to_helix F Cluster.point p_r p_x p_y flt feq fcmp fnan fadd fsub fmul fhalf fabs fzero
+               guess6 bump point_val closest (fun c s => Fit.run_strategy c (ftree s)) sd_tol_ok in
+  let vcost := Fit.vcost F fnan fadd fzero (Fit.track F) vcost_val in
+  let beamline_clusters := Fit.beamline_clusters F fcmp (Fit.track F) t_zb close_z mean_z sortP in
+  let vertex_best := Fit.vertex_best F fcmp (Fit.track F) t_zb t_rad is_primary close_z sumF mean_z sortP in
+  let find := Fit.find_vertices F vpoint fcmp fnan fadd fzero bump (fun c s => Fit.run_strategy c (vtree s)) sd_tol_ok
+                (Fit.track F) teq t_zb t_rad is_primary close_z sumF mean_z sortP vpoint_of vcost_val vguess tclosest in
   (* C15 *) (forall p, NoDup (bins p)) ->
   (* N1 *) (forall x y, fnan x = false -> fnan y = false -> fcmp x y <> None) ->
-  (* N2 *) (forall a b p, fnan (Fit.dev F Cluster.point p_r fsub fabs (fhalf (fadd (p_r a) (p_r b))) p) = false) ->
-  (* N3 *) (forall p q, fnan (point_val p q) = false) ->
-  (* N4 = V4 *) (forall (c : list F -> res F) s n,
-              (forall p, length p = n -> c p <> Panic /\ forall k, c p <> Err k) ->
-              Forall (fun v => length v = n) s -> s <> [] ->
-              exists v, nm c s = Ok (Some v) /\ length v = n) ->
-  (* N5 *) (forall pts f m l, length (guess6 pts f m l) = 6%nat) -> sd_tol_ok = true ->
+  sd_tol_ok = true ->
   (* std *) (forall l, Permutation (sortP l) l) ->
-  (* V1 *) (forall a b, fcmp (t_zb a) (t_zb b) <> None) ->
-  (* V2 *) (forall x y, fcmp (sumF (map t_rad x)) (sumF (map t_rad y)) <> None) ->
-  (* V3 *) (forall ts p t, fnan (vcost_val ts p t) = false) ->
-  (forall z, length (vguess z) = 3%nat) ->
-  (* V5 *) (forall t, teq t t = true) -> (forall a b, teq a b = true -> teq b a = true) ->
+  (forall a b, teq a b = true -> teq b a = true) ->
   (forall a b c, teq a b = true -> teq b c = true -> teq a c = true) ->
   forall avs : list A,
   (* Z1 *) (forall a, In a avs -> sp_of a <> Panic) ->
-  exists v,
-    vertex_res sp_of (Cluster.cluster_spacepoints_pub bins near)
-      (Fit.fit_cluster_to_helix F Cluster.point p_r p_x p_y flt feq fcmp fnan fadd fsub fmul fhalf fabs fzero
-         guess6 bump point_val closest nm sd_tol_ok)
-      (Fit.find_vertices F vpoint fcmp fnan fadd fzero bump nm sd_tol_ok (Fit.track F) teq t_zb t_rad is_primary
-         close_z sumF mean_z sortP vpoint_of vcost_val vguess tclosest)
-      (Ok avs) = Ok v.
+  (* N2 *) (forall cl c, vertex_clusters sp_of cluster avs = Ok cl -> In c cl ->
+              forall a b p, In a c -> In b c -> In p c ->
+              fnan (Fit.dev F Cluster.point p_r fsub fabs (fhalf (fadd (p_r a) (p_r b))) p) = false) ->
+  (* N3e *) (forall cl c, vertex_clusters sp_of cluster avs = Ok cl -> In c cl ->
+              forall s, fit_simplex c = Ok s ->
+              forall p, In p (Fit.asked (cost c) (ftree s)) -> exists y, cost c p = Ok y /\ good y) ->
+  (* N4e *) (forall cl c, vertex_clusters sp_of cluster avs = Ok cl -> In c cl ->
+              forall s, fit_simplex c = Ok s -> Fit.wf_strategy good 6 [] (ftree s)) ->
+  (* V1 *) (forall trs, vertex_tracks sp_of cluster fit avs = Ok trs ->
+              forall a b, In a trs -> In b trs -> fcmp (t_zb a) (t_zb b) <> None) ->
+  (* V2bc *) (forall trs, vertex_tracks sp_of cluster fit avs = Ok trs ->
+              forall bc a b, beamline_clusters (filter is_primary trs) = Ok bc -> In a bc -> In b bc ->
+              fcmp (sumF (map t_rad (fst a))) (sumF (map t_rad (fst b))) <> None) ->
+  (* V3e *) (forall trs, vertex_tracks sp_of cluster fit avs = Ok trs ->
+              forall ts mz s, vertex_best trs = Ok (Some (ts, mz)) -> Fit.initial_simplex F bump (vguess mz) = Ok s ->
+              forall p, In p (Fit.asked (vcost ts) (vtree s)) -> exists y, vcost ts p = Ok y /\ good y) ->
+  (* V4e *) (forall trs, vertex_tracks sp_of cluster fit avs = Ok trs ->
+              forall ts mz s, vertex_best trs = Ok (Some (ts, mz)) -> Fit.initial_simplex F bump (vguess mz) = Ok s ->
+              Fit.wf_strategy good 3 [] (vtree s)) ->
+  (* V5 *) (forall trs, vertex_tracks sp_of cluster fit avs = Ok trs -> forall t, In t trs -> teq t t = true) ->
+  exists v, vertex_res sp_of cluster fit find (Ok avs) = Ok v.
 Proof.
   intros A F vpoint sp_of bins near p_r p_x p_y flt feq fcmp fnan fadd fsub fmul fhalf fabs fzero guess6 bump
-         point_val closest nm sd_tol_ok teq t_zb t_rad is_primary close_z sumF mean_z sortP vpoint_of vcost_val
-         vguess tclosest HB N1 N2 N3 N4 N5 SD ST V1 V2 V3 VG R S T avs Z1.
-  apply (vertex_res_total sp_of _ _ _ (fun c => (13 <= length c)%nat)); auto.
+         point_val closest ftree vtree good sd_tol_ok teq t_zb t_rad is_primary close_z sumF mean_z sortP vpoint_of
+         vcost_val vguess tclosest cluster cost fit_simplex fit vcost beamline_clusters vertex_best find
+         HB N1 SD ST S T avs Z1 N2 N3 N4 V1 V2 V3 V4 V5.
+  apply (vertex_res_total_rel sp_of cluster fit find (fun c => (13 <= length c)%nat)); auto.
   - intros pts. destruct (Cluster_proofs.cluster_pub_lemma bins near HB pts) as (cl & rem & E & _ & H).
     exists cl, rem. split; auto. intros c Hc. apply H, Hc.
-  - intros c Hc.
-    apply (Fit_proofs.fit_skeleton_total_lemma F Cluster.point p_r p_x p_y flt feq fcmp fnan fadd fsub fmul fhalf fabs
-             fzero guess6 bump point_val closest nm sd_tol_ok c); auto. lia.
-  - intros trs.
-    apply (Fit_proofs.vertex_skeleton_total_lemma F vpoint fcmp fnan fadd fzero bump nm sd_tol_ok (Fit.track F) teq t_zb
-             t_rad is_primary close_z sumF mean_z sortP vpoint_of vcost_val vguess tclosest trs); auto.
+  - intros cl c Hcl Hc L13.
+    apply (Fit_proofs.fit_skeleton_total_evaluated_lemma F Cluster.point p_r p_x p_y flt feq fcmp fnan fadd fsub fmul
+             fhalf fabs fzero guess6 bump point_val closest ftree good sd_tol_ok c); auto.
+    + exact (N2 cl c Hcl Hc).
+    + exact (N3 cl c Hcl Hc).
+    + exact (N4 cl c Hcl Hc).
+    + lia.
+  - intros trs Htr.
+    apply (Fit_proofs.vertex_skeleton_total_evaluated_bc_lemma F vpoint fcmp fnan fadd fzero bump vtree good sd_tol_ok
+             (Fit.track F) teq t_zb t_rad is_primary close_z sumF mean_z sortP vpoint_of vcost_val vguess tclosest trs);
+      auto.
+    + exact (V1 trs Htr).
+    + exact (V3 trs Htr).
+    + exact (V4 trs Htr).
+    + exact (V5 trs Htr).
+    + exact (V2 trs Htr).
 Qed.
 
 (* the table fact in the form the harness measures it (rel17table): bins lo..hi of the response exist and are
